@@ -1,7 +1,7 @@
 """C02 -- each added message reaches every subscribed connection exactly once."""
 import ast
 
-from ..events import (all_events, is_app_id, is_own_mailbox_id, is_client_value,
+from ..events import (is_conn_side, is_listeners_reg, all_events, is_app_id, is_own_mailbox_id, is_client_value,
                       construct_of, handler_paths, handler_for, frame_type,
                       frame_fields, flat_events)
 from ..report import render_path
@@ -9,6 +9,8 @@ from ..terms import show, plain, is_const, strip_wrappers
 from .. import e4 as e4mod
 from ..e3 import pc_truth
 from ..repo import AnalysisError
+
+from . import shared
 
 LEVEL = "other"
 EXPLANATION = (
@@ -21,10 +23,13 @@ EXPLANATION = (
     "per key for everyone who holds one (registry rules: construct-once, key = "
     "id, guarded store, owner-only mutation, holder safety U). Not decided: "
     "exactly-once at the socket level (Autobahn/TCP).")
+EXPLANATION += ' Also decided: every entry point exits with the channel DB clean (durability across restarts).'
 
 
 def run(ctx):
     model = ctx.model
+    shared.r_durable(ctx, "R02.durable", ("chan",),
+                     'after a restart an acknowledged message is gone, or a deleted mailbox is back')
     from .. import roles as _roles
     R = _roles.get(model)
     ctx.rule("R02.side", "the side stored and broadcast by `add` is the connection's "
@@ -45,11 +50,11 @@ def run(ctx):
     for m in ws[1]["methods"].values():
         for n in ast.walk(m.node):
             if isinstance(n, ast.Attribute) and isinstance(n.ctx, ast.Store) and \
-                    n.attr == "_side":
+                    n.attr == model.names.side_attr:
                 stores.append((m, n))
     for (m, n) in stores:
         ok = m.name in ("__init__", h_bind)
-        ctx.ob("R02.side", "%s assigns _side" % m.qualname, ok,
+        ctx.ob("R02.side", "%s assigns the connection's side" % m.qualname, ok,
                "%s:%d" % (ws[0].path, n.lineno),
                "" if ok else "the bind side is reassigned outside the bind handler")
     ctx.require("R02.side", len(stores), 2, "assignments of the connection's side")
@@ -62,8 +67,7 @@ def run(ctx):
                 ins = e
                 nadd += 1
                 side = e["src"]["set"].get("side")
-                ok = side is not None and side[0] == "attr" and side[2] == "_side" and \
-                    side[1][0] == "obj" and side[1][1] == "WebSocketServer"
+                ok = side is not None and is_conn_side(side)
                 ctx.ob("R02.side", "%s: stored side" % h_add, ok, e,
                        "" if ok else "stored side is %s, not the connection's bind side"
                        % show(side)[:80])
@@ -92,7 +96,7 @@ def run(ctx):
                 continue
             it = strip_wrappers(e["iter"])
             whole = it[0] == "call" and it[1] in (".values", ".items") and \
-                it[2][0][0] == "reg" and it[2][0][2] == "_listeners"
+                is_listeners_reg(it[2][0])
             ctx.ob("R02.fanout", "%s: iterates all listeners" % e["func"], whole, e,
                    "" if whole else "broadcast iterates %s" % show(e["iter"])[:80])
             every = True
@@ -111,7 +115,7 @@ def run(ctx):
     nreg = 0
     for p in handler_paths(model, h_open):
         for e, _ in all_events(p, ("reg_set",)):
-            if e["reg"][0] == "reg" and e["reg"][2] == "_listeners":
+            if is_listeners_reg(e["reg"]):
                 nreg += 1
                 ok = e["key"][0] == "obj" and e["key"][1] == "WebSocketServer"
                 ctx.ob("R02.key", "%s: listener keyed by the connection" % h_open, ok, e,
@@ -132,7 +136,7 @@ def run(ctx):
         # remove its listener
         if lis is False or p.outcome.kind != "return":
             continue
-        rem = any(e["reg"][0] == "reg" and e["reg"][2] == "_listeners" and
+        rem = any(is_listeners_reg(e["reg"]) and
                   e["key"] is not None and e["key"][0] == "obj"
                   for e, _ in all_events(p, ("reg_del",)))
         # only paths that reach the close call
@@ -148,7 +152,7 @@ def run(ctx):
                   if t[0] == "obj" and t[1] == "Mailbox"]
             if not (mb and mb[0] is False):
                 nclose += 1
-                rem = any(e["reg"][0] == "reg" and e["reg"][2] == "_listeners"
+                rem = any(is_listeners_reg(e["reg"])
                           for e, _ in all_events(p, ("reg_del",)))
                 ctx.ob("R02.key", "onClose: listener removed on disconnect", rem,
                        p.events[-1] if p.events else "", "" if rem else
